@@ -15,13 +15,35 @@ def items(ctx):
     return w.get("admin_list"), s.get("allowances"), s.get("permissions")
 
 
+def _elementwise_identity(name):
+    from .. import prims
+    return prims.lookup(name, name) is prims.p_identity
+
+
+def _admins_of(t):
+    """t is <list>.admins (possibly behind iterator adapters that keep every element) -> list term"""
+    while t[0] == "call" and t[2]:
+        op = t[1].split("::")[-1]
+        if op in ("iter", "into_iter", "cloned", "copied", "by_ref"):
+            t = t[2][0]
+        elif op == "map" and len(t[2]) == 2 and t[2][1][0] == "fnitem" and _elementwise_identity(t[2][1][2]):
+            t = t[2][0]     # admins.iter().map(Addr::as_str): the same elements, viewed as strings
+        else:
+            break
+    if t[0] == "field" and t[2] == "admins":
+        return t[1]
+    return None
+
+
 def match_is_admin(ctx, t):
     """t == any(<list>.admins, closure{addr}) with the closure body `elem == addr`  ->  (list owner, addr)"""
     if not (isinstance(t, tuple) and t and t[0] == "call" and t[1] == "any" and len(t[2]) == 2):
         return None
     lst, clos = t[2]
-    if not (lst[0] == "field" and lst[2] == "admins" and clos[0] == "closure" and len(clos[2]) == 1):
+    owner = _admins_of(lst)
+    if not (owner is not None and clos[0] == "closure" and len(clos[2]) == 1):
         return None
+    lst = ("field", owner, "admins")
     key = ("is_admin_closure", clos[1])
     ok = ctx.cache.get(key)
     if ok is None:
@@ -38,15 +60,6 @@ def match_is_admin(ctx, t):
     if not ok:
         return None
     return lst[1], clos[2][0]
-
-
-def _admins_of(t):
-    """t is <list>.admins (possibly behind iterator adapters that keep every element) -> list term"""
-    while t[0] == "call" and t[1].split("::")[-1] in ("iter", "into_iter", "cloned", "copied", "by_ref") and t[2]:
-        t = t[2][0]
-    if t[0] == "field" and t[2] == "admins":
-        return t[1]
-    return None
 
 
 def admin_decisions(ctx, p, ADMIN, before=None):
